@@ -394,3 +394,20 @@ func (c *Ctx) LookupType(rel, name string) *types.Named {
 	n, _ := types.Unalias(tn.Type()).(*types.Named)
 	return n
 }
+
+// ModuleInits returns the synthetic package initialisers of the module's packages (the code that evaluates
+// package-level variable initialisers), which ModuleFuncs skips.
+func (c *Ctx) ModuleInits() []*ssa.Function {
+	c.BuildSSA()
+	var out []*ssa.Function
+	for _, p := range c.Prog.AllPackages() {
+		if p.Pkg == nil || !InModule(p.Pkg) {
+			continue
+		}
+		if f := p.Func("init"); f != nil && f.Blocks != nil {
+			out = append(out, f)
+		}
+	}
+	sort.Slice(out, func(i, j int) bool { return out[i].Pkg.Pkg.Path() < out[j].Pkg.Pkg.Path() })
+	return out
+}
